@@ -728,21 +728,26 @@ fn c06_shutdown_step_s2() { shutdown_step::<2>(); }
 }
 
 // ---------------------------------------------------------------------------------------------------
-// C06-S4: count-based retransmission. One `check_retx` pass on a socket with symbolic counters:
-// below the threshold nothing changes but the counter; at the threshold with budget left snd_nxt is
-// rewound to snd_una (go-back-N) and an attempt is charged; with the budget exhausted the connection
-// is aborted with timed_out and every later read / write / peek reports TimedOut (never Ok).
-fn retx_step<const SL: usize>(state: TcpState, una: u32, infl0: u32) -> (bool, bool) {
+// C06-S4: count-based retransmission. One `check_retx` pass. The three branches (below threshold /
+// rewind / budget exhausted) are separate instances with concrete counters (a symbolic counter makes
+// the abort and resend lists symbolic-length: 335 s symex + OOM); contents, rcv_nxt, windows stay
+// symbolic and snd_una sits next to u32::MAX in the rewind instance.
+//  * below the threshold nothing changes but the pass counter;
+//  * at the threshold with budget left snd_nxt is rewound to snd_una (go-back-N), an attempt is charged;
+//  * with the budget exhausted the connection is aborted with timed_out, and every later read /
+//    write / peek reports TimedOut - never Ok with silently dropped data.
+fn retx_step<const SL: usize>(state: TcpState, una: u32, infl0: u32, esa: u32, attempts: u32, thr: u32, max: u32) -> (bool, bool) {
     let send: [u8; SL] = any_bytes();
     let recv: [u8; 1] = any_bytes();
     let (mut k, fd) = mk_full(Some(state), Some((una, infl0)), &send, &recv, SL + 1, 2, L, R);
-    let thr: u32 = kani::any();
-    let max: u32 = kani::any();
-    kani::assume(thr >= 1 && thr <= 4 && max <= 3);
     k.retx_threshold = thr;
     k.retx_max = max;
+    {
+        let t = k.sockets.get_mut(fd).unwrap().tcb.as_mut().unwrap();
+        t.egress_since_ack = esa;
+        t.retx_attempts = attempts;
+    }
     let pre = snap(&k, fd);
-    kani::assume(pre.egress_since_ack < thr && pre.retx_attempts <= max);
     let infl = pre.snd_nxt.wrapping_sub(pre.snd_una);
     check_retx(&mut k);
     let post = snap(&k, fd);
@@ -774,27 +779,274 @@ fn retx_step<const SL: usize>(state: TcpState, una: u32, infl0: u32) -> (bool, b
     std::mem::forget(k);
     (rewound, post.timed_out)
 }
-// @verif id=C06 tier=quick role=check_retx timeout=600 desc=Established,buffered=2
-crate::verif_proof! { unwind = 3;
-fn c06_retx_step_est_s2() {
-    let (rewound, timed_out) = retx_step::<2>(TcpState::Established, 0xFFFF_FFFF, 2);
+// @verif id=C06 tier=quick role=check_retx timeout=600 desc=Established,buffered=2,rewind-at-threshold,snd_una=u32::MAX
+crate::verif_proof! { unwind = 4;
+fn c06_retx_rewinds_at_threshold() {
+    let (rewound, timed_out) = retx_step::<2>(TcpState::Established, 0xFFFF_FFFF, 2, 2, 1, 3, 5);
+    assert!(rewound && !timed_out);
     kani::cover!(rewound, "rewound");
+}
+}
+// @verif id=C06 tier=quick role=check_retx timeout=600 desc=CloseWait,buffered=2,budget-exhausted->TimedOut
+crate::verif_proof! { unwind = 4;
+fn c06_retx_exhaustion_surfaces_as_timed_out() {
+    let (rewound, timed_out) = retx_step::<2>(TcpState::CloseWait, 77, 1, 2, 5, 3, 5);
+    assert!(!rewound && timed_out);
     kani::cover!(timed_out, "timed out");
 }
 }
-// @verif id=C06 tier=thorough role=check_retx timeout=900 desc=FinWait1,buffered=1
-crate::verif_proof! { unwind = 3;
-fn c06_retx_step_fw1_s1() {
-    let (rewound, timed_out) = retx_step::<1>(TcpState::FinWait1, 5, 2);
-    kani::cover!(rewound, "rewound");
-    kani::cover!(timed_out, "timed out");
+// @verif id=C06 tier=thorough role=check_retx timeout=600 desc=FinWait1,buffered=1,below-threshold
+crate::verif_proof! { unwind = 4;
+fn c06_retx_counts_passes_below_threshold() {
+    let (rewound, timed_out) = retx_step::<1>(TcpState::FinWait1, 5, 2, 0, 0, 3, 5);
+    assert!(!rewound && !timed_out);
+    kani::cover!(!rewound, "counted");
 }
 }
-// @verif id=C06 tier=thorough role=check_retx timeout=900 desc=FinWait2(no timer)
-crate::verif_proof! { unwind = 3;
-fn c06_retx_step_fw2_s0() {
-    let (rewound, timed_out) = retx_step::<0>(TcpState::FinWait2, 5, 0);
+// @verif id=C06 tier=thorough role=check_retx timeout=600 desc=FinWait2(no-timer)
+crate::verif_proof! { unwind = 4;
+fn c06_retx_no_timer_without_inflight() {
+    let (rewound, timed_out) = retx_step::<0>(TcpState::FinWait2, 5, 0, 2, 5, 3, 5);
     assert!(!rewound && !timed_out);
     kani::cover!(!rewound, "no timer in FinWait2");
+}
+}
+
+// ---------------------------------------------------------------------------------------------------
+// C16 on bare values: MSS and advertised window for ALL configuration values.
+// @verif id=C16 tier=quick role=mss_formula
+#[kani::proof]
+#[kani::unwind(18)]
+fn c16_mss_is_mtu_minus_headers_for_every_mtu() {
+    let mut k = Kernel::new();
+    k.mtu = kani::any();
+    k.loopback_mtu = kani::any();
+    let which: u8 = kani::any();
+    let ip = match which % 4 {
+        0 => IpAddr::V4(Ipv4Addr::new(10, kani::any(), kani::any(), 1)),
+        1 => IpAddr::V4(Ipv4Addr::new(127, kani::any(), kani::any(), kani::any())),
+        2 => IpAddr::V6(Ipv6Addr::LOCALHOST),
+        _ => IpAddr::V6(Ipv6Addr::new(0xfd00, 0, 0, 0, 0, 0, 0, kani::any())),
+    };
+    let mtu = if which % 4 == 1 || which % 4 == 2 { k.loopback_mtu } else { k.mtu };
+    let hdr: u32 = if ip.is_ipv4() { 20 + 20 } else { 40 + 20 };
+    let expect = if mtu > hdr { mtu - hdr } else { 0 };
+    assert!(mss_for(&k, ip) == expect as usize, "MSS = MTU of the interface the segment leaves from minus IP and TCP headers");
+    kani::cover!(expect == 0, "MTU below the header size");
+    kani::cover!(which % 4 == 2 && expect > 0, "IPv6 loopback");
+    std::mem::forget(k);
+}
+
+// @verif id=C16 tier=quick role=window_formula
+#[kani::proof]
+fn c16_advertised_window_is_free_room_capped_at_u16() {
+    let cap: usize = kani::any();
+    let len: usize = kani::any();
+    let w = advertised_window(cap, len) as usize;
+    let free = if cap > len { cap - len } else { 0 };
+    assert!(w == if free < 65535 { free } else { 65535 });
+    kani::cover!(free > 65535, "window clamps at 65535");
+    kani::cover!(len > cap, "over-full buffer advertises zero");
+}
+
+// ---------------------------------------------------------------------------------------------------
+// C06/C13: the per-state dispatcher with a CONCRETE state.
+//  * RST on any connection aborts it: state Closed, reset flag, buffers cleared, later reads/writes
+//    report ConnectionReset;
+//  * a Closed TCB ignores late traffic.
+fn dispatch_rst(state: TcpState) {
+    let send: [u8; 2] = any_bytes();
+    let recv: [u8; 1] = any_bytes();
+    let (mut k, fd) = mk_in(Some(state), &send, &recv, 3, 2, L, R);
+    let seg = TcpSegment {
+        src_port: R.port(),
+        dst_port: L.port(),
+        seq: kani::any(),
+        ack: kani::any(),
+        flags: TcpFlags { syn: false, ack: kani::any(), fin: kani::any(), rst: true, psh: false, urg: false },
+        window: kani::any(),
+        payload: Bytes::new(),
+    };
+    handle_on_connection(&mut k, fd, L, R, &seg);
+    let post = snap(&k, fd);
+    assert!(post.state == TcpState::Closed && post.reset && !post.timed_out);
+    assert!(post.send_len == 0 && post.recv_len == 0, "post-RST reads see the error, not stale data");
+    assert!(k.outbound.len() == 0, "a RST is never answered");
+    let mut cx = noop_cx();
+    let mut b = [0u8; 1];
+    let Poll::Ready(r1) = poll_recv(&mut k, fd, &mut cx, &mut b) else { panic!("must not park") };
+    assert!(take(r1).1 == Outcome::ConnectionReset);
+    let Poll::Ready(r2) = poll_send(&mut k, fd, &mut cx, &b) else { panic!("must not park") };
+    assert!(take(r2).1 == Outcome::ConnectionReset);
+    kani::cover!(post.reset, "reset");
+    std::mem::forget(k);
+    std::mem::forget(seg);
+}
+// @verif id=C06,C13 tier=quick role=dispatch_rst timeout=600 desc=Established
+crate::verif_proof! { unwind = 5;
+fn c06_dispatch_rst_established() { dispatch_rst(TcpState::Established); }
+}
+// @verif id=C06,C13 tier=thorough role=dispatch_rst timeout=600 desc=FinWait1
+crate::verif_proof! { unwind = 5;
+fn c06_dispatch_rst_finwait1() { dispatch_rst(TcpState::FinWait1); }
+}
+
+// @verif id=C06 tier=quick role=dispatch_data timeout=600 desc=CloseWait:data-dispatch-equals-handle_established
+crate::verif_proof! { unwind = 6;
+fn c06_dispatch_data_state_reaches_established_handler() {
+    // the dispatcher hands data states to handle_established: an in-order byte is accepted
+    let send: [u8; 1] = any_bytes();
+    let recv: [u8; 0] = any_bytes();
+    let (mut k, fd) = mk_in(Some(TcpState::Established), &send, &recv, 2, 2, L, R);
+    let pre = snap(&k, fd);
+    let p: [u8; 1] = any_bytes();
+    let seg = TcpSegment { src_port: R.port(), dst_port: L.port(), seq: pre.rcv_nxt, ack: 0,
+        flags: TcpFlags { syn: false, ack: false, fin: false, rst: false, psh: true, urg: false },
+        window: 0, payload: Bytes::copy_from_slice(&p) };
+    handle_on_connection(&mut k, fd, L, R, &seg);
+    let post = snap(&k, fd);
+    assert!(post.recv_len == 1 && post.rcv_nxt == pre.rcv_nxt.wrapping_add(1));
+    let t = k.sockets.get(fd).unwrap().tcb.as_ref().unwrap();
+    assert!(t.recv_buf[0] == p[0]);
+    kani::cover!(post.recv_len == 1, "byte accepted through the dispatcher");
+    std::mem::forget(k);
+    std::mem::forget(seg);
+}
+}
+
+// ---------------------------------------------------------------------------------------------------
+// C13-S4/S1: close decision table and index hygiene on one connected socket.
+//  * unread bytes at close -> RST to the peer, entry reclaimed at once;
+//  * clean close of a live connection -> lingers: FIN queued right behind the buffered bytes (if the
+//    write side was still open), the application handle is gone (fd_closed) and NO packet is emitted
+//    by close itself;
+//  * whenever the entry is reclaimed, the socket, its binding and its 4-tuple index entry are ALL gone.
+fn close_step<const SL: usize, const RL: usize>(state: TcpState) -> bool {
+    let send: [u8; SL] = any_bytes();
+    let recv: [u8; RL] = any_bytes();
+    let (mut k, fd) = mk_in(Some(state), &send, &recv, SL + 1, RL + 1, L, R);
+    let pre = snap(&k, fd);
+    k.close(fd);
+    let gone = k.sockets.get(fd).is_none();
+    if RL > 0 {
+        assert!(gone, "abortive close reclaims at once");
+        assert!(k.outbound.len() == 1);
+        let pkt = k.outbound.back().unwrap();
+        let s = tcp_of(pkt);
+        assert!(s.flags.rst && s.seq == pre.snd_nxt && s.ack == pre.rcv_nxt && pkt.dst == R.ip() && s.dst_port == R.port(),
+            "peer is told with a RST");
+    } else {
+        assert!(!gone, "clean close lingers until the close handshake ends");
+        assert!(k.outbound.len() == 0);
+        let post = snap(&k, fd);
+        assert!(k.sockets.get(fd).unwrap().fd_closed && post.wr_closed);
+        if !pre.wr_closed {
+            assert!(post.fin_seq == Some(pre.snd_una.wrapping_add(SL as u32)), "FIN goes after the last accepted byte");
+            assert!(post.state == if pre.state == TcpState::Established { TcpState::FinWait1 } else { TcpState::LastAck });
+        } else {
+            assert!(post.fin_seq == pre.fin_seq && post.state == pre.state);
+        }
+        assert!(i6(&post, SL + 1, RL + 1));
+    }
+    if gone {
+        assert!(k.sockets.find_connection(L, R).is_none(), "4-tuple index entry reclaimed");
+        let key = BindKey { domain: Domain::Inet, ty: Type::Stream, local_addr: L.ip(), local_port: L.port() };
+        assert!(k.sockets.find_by_bind(&key).is_empty(), "binding reclaimed");
+        assert!(k.sockets.iter().count() == 0);
+    }
+    std::mem::forget(k);
+    gone
+}
+// @verif id=C13 tier=quick role=close_table timeout=600 desc=Established,unread=1->RST
+crate::verif_proof! { unwind = 6;
+fn c13_close_with_unread_bytes_resets() {
+    let gone = close_step::<1, 1>(TcpState::Established);
+    kani::cover!(gone, "reclaimed");
+}
+}
+// @verif id=C13 tier=quick role=close_table timeout=600 desc=Established,clean->linger+FIN
+crate::verif_proof! { unwind = 6;
+fn c13_clean_close_lingers_and_queues_fin() {
+    let gone = close_step::<2, 0>(TcpState::Established);
+    kani::cover!(!gone, "lingering");
+}
+}
+// @verif id=C13 tier=thorough role=close_table timeout=600 desc=CloseWait,clean->LastAck
+crate::verif_proof! { unwind = 6;
+fn c13_clean_close_after_peer_fin() {
+    let gone = close_step::<1, 0>(TcpState::CloseWait);
+    kani::cover!(!gone, "lingering");
+}
+}
+// @verif id=C13 tier=thorough role=close_table timeout=600 desc=FinWait2(already-shut),clean
+crate::verif_proof! { unwind = 6;
+fn c13_clean_close_after_shutdown() {
+    let gone = close_step::<0, 0>(TcpState::FinWait2);
+    kani::cover!(!gone, "lingering");
+}
+}
+
+// C13: lingering sockets are reaped at the end of egress once Closed or reset, and only then; a
+// terminal socket without an application handle must not stay in the table (D1).
+fn reap_step(fd_closed: bool, terminal: u8) -> bool {
+    let send: [u8; 0] = any_bytes();
+    let recv: [u8; 0] = any_bytes();
+    let (mut k, fd) = mk_in(Some(TcpState::FinWait2), &send, &recv, 1, 1, L, R);
+    {
+        let st = k.sockets.get_mut(fd).unwrap();
+        st.fd_closed = fd_closed;
+        let t = st.tcb.as_mut().unwrap();
+        match terminal {
+            0 => {}
+            1 => t.state = TcpState::Closed,
+            2 => {
+                t.state = TcpState::Closed;
+                t.reset = true;
+            }
+            _ => {
+                t.state = TcpState::Closed;
+                t.timed_out = true;
+            }
+        }
+    }
+    reap_closed(&mut k);
+    let gone = k.sockets.get(fd).is_none();
+    if fd_closed {
+        assert!(gone == (terminal != 0), "reaped exactly when terminal");
+    } else {
+        assert!(!gone, "a socket whose handle is still held is never reaped");
+    }
+    if gone {
+        assert!(k.sockets.find_connection(L, R).is_none() && k.sockets.iter().count() == 0);
+    }
+    std::mem::forget(k);
+    gone
+}
+// @verif id=C13 tier=quick role=reap timeout=600 desc=lingering,Closed
+crate::verif_proof! { unwind = 4;
+fn c13_reap_lingering_closed_socket() {
+    let gone = reap_step(true, 1);
+    kani::cover!(gone, "reaped");
+}
+}
+// @verif id=C13 tier=quick role=reap timeout=600 desc=lingering,still-closing
+crate::verif_proof! { unwind = 4;
+fn c13_reap_keeps_socket_that_is_still_closing() {
+    let gone = reap_step(true, 0);
+    kani::cover!(!gone, "still closing");
+}
+}
+// @verif id=C13 tier=thorough role=reap timeout=600 desc=lingering,timed-out
+crate::verif_proof! { unwind = 4;
+fn c13_reap_lingering_timed_out_socket() {
+    let gone = reap_step(true, 3);
+    kani::cover!(gone, "reaped");
+}
+}
+// @verif id=C13 tier=thorough role=reap timeout=600 desc=handle-held,reset
+crate::verif_proof! { unwind = 4;
+fn c13_reap_never_takes_a_socket_whose_handle_is_held() {
+    let gone = reap_step(false, 2);
+    kani::cover!(!gone, "kept");
 }
 }
